@@ -8,6 +8,7 @@ Require Import Fggs.Proofs.PTensor_sem Fggs.Proofs.PTensor_dense Fggs.Proofs.PTe
 Require Import Fggs.Proofs.PTensor_binary Fggs.Proofs.PTensor_xval Fggs.Proofs.PTensor_transpose Fggs.Proofs.PTensor_expand.
 Require Import Fggs.Proofs.Axis_antiunify_inv.
 Require Import Fggs.Proofs.Axis_complete_gen Fggs.Proofs.Axis_typed Fggs.Proofs.Axis_total Fggs.Proofs.Axis_fuel Fggs.Proofs.Axis_mgu Fggs.Proofs.Axis_rank Fggs.Proofs.Axis_typed_check Fggs.Proofs.Axis_typed_model.
+Require Import Fggs.Proofs.Axis_total_path Fggs.Proofs.Axis_coarsen Fggs.Proofs.Axis_fuel_suffices.
 Require Import Fggs.Model.PTensorOps.
 Require Import Fggs.Proofs.PTensor_bcast Fggs.Proofs.PTensor_bcast_inv Fggs.Proofs.PTensor_bcast_thm Fggs.Proofs.PTensor_bcast_xval.
 Require Import Fggs.Proofs.Axis_clone Fggs.Proofs.PTensor_struct Fggs.Proofs.PTensor_getitem Fggs.Proofs.PTensor_reprinv.
@@ -160,22 +161,71 @@ Theorem C06_unify_complete : forall G es fs pss next fuel b st',
 Proof. exact unify_typed_mgu_any_fuel. Qed.
 Print Assumptions C06_unify_complete.
 
-(** ... and with the fuel the model / the check function uses, it does answer, provided that fuel
-    is at least the type-derived bound.  OPEN (notes/UNIFY.md): dropping the side condition, i.e.
-    [unify_fuel es fs >= ] the recursion depth for ALL typed patterns; it holds on every universe
-    the harness enumerates ([C06_typed_universe_upto12]). *)
-Theorem C06_unify_complete_model_fuel_partial : forall G es fs pss next,
+(** ... and with the fuel the model / the check function uses ([unify_fuel], Model/AxisCheck.v) it
+    DOES answer, on every typed pair of patterns -- no side condition (notes/UNIFY.md section 6):
+    the model answers, has not warned, returns a well-typed acyclic substitution, and the answer is
+    a most general unifier or, on failure, the patterns have no coincidence.
+    (The former statement [C06_unify_complete_model_fuel_partial] carried the premise
+    [Forall (fun ps => tyfuel ps <= unify_fuel es fs) pss], which is false in general: a typing may
+    use types much larger than the patterns.) *)
+Theorem C06_unify_complete_model_fuel : forall G es fs pss next,
   ctx_good G -> ctx_below G next -> tys G es pss -> tys G fs pss -> Forall gprimes pss ->
-  Forall (fun ps => tyfuel ps <= unify_fuel es fs) pss ->
   exists b st', unify_list (unify_fuel es fs) es fs (ustate0 next) = Ok (b, st') /\ us_warn st' = false /\
+    (exists G', (next <= us_next st')%positive /\ ctx_ext next G G' /\ tstate G' st') /\
     (forall rho, Forall (inrange rho) es -> Forall (inrange rho) fs ->
        if b
        then (models rho (us_subst st') -> map (eval rho) es = map (eval rho) fs) /\
             (map (eval rho) es = map (eval rho) fs ->
              exists rho', extends_to next rho rho' /\ inr_s rho' (us_subst st') /\ models rho' (us_subst st'))
        else map (eval rho) es <> map (eval rho) fs).
-Proof. exact unify_typed_mgu_model_fuel. Qed.
-Print Assumptions C06_unify_complete_model_fuel_partial.
+Proof. exact unify_typed_mgu_model. Qed.
+Print Assumptions C06_unify_complete_model_fuel.
+
+(** the ingredients: (a) totality with a fuel bound that follows one path through the type
+    ([pm]: primes of the product spaces met + sum types crossed; [pmfuel ps = 3 * pm ps + 2]) *)
+Theorem C06_unify_total_path : forall G es fs pss next fuel,
+  ctx_good G -> ctx_below G next -> tys G es pss -> tys G fs pss -> Forall gprimes pss ->
+  Forall (fun ps => pmfuel ps <= fuel) pss ->
+  exists b st' G', unify_list fuel es fs (ustate0 next) = Ok (b, st') /\ us_warn st' = false /\
+                   (next <= us_next st')%positive /\ ctx_ext next G G' /\ tstate G' st'.
+Proof. exact unify_total_path_list. Qed.
+Print Assumptions C06_unify_total_path.
+
+(** (b) every typed pair has a coarser typing (sum types at which no [Sum] node is typed become
+    atoms) whose path fuel is at most the fuel of the model *)
+Theorem C06_unify_fuel_suffices : forall G es fs pss,
+  tys G es pss -> tys G fs pss -> Forall gprimes pss ->
+  exists V, tys (coG V G) es (map (map (co V)) pss) /\ tys (coG V G) fs (map (map (co V)) pss) /\
+            Forall gprimes (map (map (co V)) pss) /\
+            Forall (fun ps => pmfuel ps <= unify_fuel es fs) (map (map (co V)) pss).
+Proof. exact unify_fuel_suffices. Qed.
+Print Assumptions C06_unify_fuel_suffices.
+
+(** the former fuel formula of the model (linear in the number of nodes) is refuted: the conjugacy
+    equation [a.X = X.a'], [X] a shared physical axis of size [2^16], is a typed pair on which the
+    recursion is 49 deep although the patterns have 6 nodes (fuel 46); a finding about the MODEL --
+    the Python code has no fuel, it just recurses 49 frames deep *)
+Theorem C06_unify_fuel_old_refuted :
+  ctx_good conj_ctx /\ ctx_below conj_ctx 4 /\
+  tys conj_ctx conj_es [repeat (TAtom 2) 17] /\ tys conj_ctx conj_fs [repeat (TAtom 2) 17] /\
+  Forall gprimes [repeat (TAtom 2) 17] /\
+  unify_list (unify_fuel_old conj_es conj_fs) conj_es conj_fs (ustate0 4) = Fail OutOfFuel /\
+  exists st', unify_list (unify_fuel conj_es conj_fs) conj_es conj_fs (ustate0 4) = Ok (true, st') /\ us_warn st' = false.
+Proof. exact unify_fuel_old_refuted. Qed.
+Print Assumptions C06_unify_fuel_old_refuted.
+
+(** two environments with the model's fuel, premise-free (what C07's [mul] / einsum needs) *)
+Theorem C06_unify_complete_two_envs_model : forall G es fs pss next,
+  ctx_good G -> ctx_below G next -> tys G es pss -> tys G fs pss -> Forall gprimes pss ->
+  (forall k, In k (flat_map fv es) -> ~ In k (flat_map fv fs)) ->
+  exists b st', unify_list (unify_fuel es fs) es fs (ustate0 next) = Ok (b, st') /\ us_warn st' = false /\
+    (forall rho1 rho2, Forall (inrange rho1) es -> Forall (inrange rho2) fs ->
+       map (eval rho1) es = map (eval rho2) fs ->
+       b = true /\ exists rho', (forall k, In k (flat_map fv es) -> rho' k = rho1 k) /\
+                                (forall k, In k (flat_map fv fs) -> rho' k = rho2 k) /\
+                                models rho' (us_subst st')).
+Proof. exact unify_typed_mgu_two_envs_model. Qed.
+Print Assumptions C06_unify_complete_two_envs_model.
 
 (** two environments (patterns over disjoint physical axes, as [equal] / [mul] arrange by
     freshening): every coincidence [eval rho1 es = eval rho2 fs] is an instance of the unifier *)
